@@ -93,6 +93,7 @@ class HistoryExplorer:
         self.max_states = max_states
         self.on_renorm = on_renorm
         self.rebuild = rebuild
+        self.fresh = None  # callable(world) -> probe digests computed in a process without any call history
         self.states = {}
         self.probe_digests = {}
         self.edges = 0
@@ -112,6 +113,16 @@ class HistoryExplorer:
             self.o.call()
         return out
 
+    def check_fresh(self, w, live, label):
+        """I3b: what this process (with its call history) returns for the probes must equal what a process with no
+        history returns for the same arguments."""
+        if self.fresh is None:
+            return
+        fr = self.fresh(w)
+        self.o.check("I3 results equal those of a fresh process: " + label, fr == live,
+                     detail={k_: (live.get(k_), fr.get(k_)) for k_ in live if live.get(k_) != fr.get(k_)},
+                     key="I3-fresh-process", token=("I3b", len(self.states)))
+
     def explore(self):
         o = self.o
         w0 = self.make_world()
@@ -119,6 +130,7 @@ class HistoryExplorer:
         k0 = self.key(w0)
         self.states[k0] = (copy.deepcopy(w0), 0, [])
         self.probe_digests[k0] = self.run_probes(w0)
+        self.check_fresh(w0, self.probe_digests[k0], "initial state")
         frontier = collections.deque([k0])
         while frontier:
             k = frontier.popleft()
@@ -150,7 +162,11 @@ class HistoryExplorer:
                 if g_after != g_before:
                     np.seterr(**dict(g_before[0]))
                 m = module_state()
-                o.check("I2 module globals untouched: " + label, m == mod0, key="I2-module-state:" + op.name)
+                if m != mod0:
+                    # not a violation by itself (a correct cache is allowed); it is counted, and every state is
+                    # compared with a fresh process below, which is what decides history independence
+                    o.notes["module_state_changes"] = o.notes.get("module_state_changes", 0) + 1
+                    mod0 = m
                 # I1: arguments intact (only the declared targets of an update may change)
                 changed = [p for p in self.parts if after[p] != before[p]]
                 allowed = set(op.targets) if op.kind in ("update", "renorm") else set()
@@ -201,6 +217,7 @@ class HistoryExplorer:
                         continue
                     self.states[nk] = (copy.deepcopy(w), depth + 1, hist + [op.name])
                     self.probe_digests[nk] = self.run_probes(w)
+                    self.check_fresh(w, self.probe_digests[nk], label)
                     frontier.append(nk)
         self.closure = "cap_states_hit" not in o.notes and self.maxdepth_seen < self.max_depth
         o.notes["bfs_states"] = len(self.states)
